@@ -314,24 +314,24 @@ theorem pool_get (T : Tables) (sched : List Nat) (pool : List TState) (t : Nat) 
 
 /-! ### the same for any granularity: threads whose steps are functions of (shared, own state) -/
 
-def iter {α : Type} (f : α → α) : Nat → α → α
+def iterN {α : Type} (f : α → α) : Nat → α → α
   | 0, a => a
-  | n + 1, a => iter f n (f a)
+  | n + 1, a => iterN f n (f a)
 
 def gpoolRun {α : Type} (f : α → α) (pool : List α) (sched : List Nat) : List α :=
   sched.foldl (fun p tid => p.modify tid f) pool
 
 theorem gpool_get {α : Type} (f : α → α) (sched : List Nat) (pool : List α) (t : Nat) :
-    (gpoolRun f pool sched)[t]? = pool[t]?.map (iter f (sched.count t)) := by
+    (gpoolRun f pool sched)[t]? = pool[t]?.map (iterN f (sched.count t)) := by
   induction sched generalizing pool with
-  | nil => simp [gpoolRun, iter]
+  | nil => simp [gpoolRun, iterN]
   | cons tid rest ih =>
     have : gpoolRun f pool (tid :: rest) = gpoolRun f (pool.modify tid f) rest := rfl
     rw [this, ih, List.getElem?_modify]
     by_cases h : tid = t
     · subst h
       simp only [if_true, List.count_cons_self]
-      cases pool[tid]? <;> simp [iter]
+      cases pool[tid]? <;> simp [iterN]
     · have hne : (tid == t) = false := by simp [h]
       simp only [if_neg h, List.count_cons, hne]
       simp
